@@ -40,8 +40,11 @@ var cfg = &go2coq.Config{
 	Prefix: "s_",
 	Funcs: []string{"CountAB", "Runs", "FindPair", "Swap", "MkP", "Upto", "At", "Safe", "Sum", "Shadow", "Upper", "Mixed",
 		"Lookup", "Balanced", "Tri", "SumTri", "Runes", "Plain", "Words", "AllHex", "CountDown"},
-	Stubs: map[string]string{"bytes": "package bytes\nfunc IndexByte(b []byte, c byte) int\n"},
-	Lib:   map[string]go2coq.LibFunc{"bytes.IndexByte": {Coq: "go_bytes_IndexByte"}},
+	Stubs: map[string]string{"bytes": "package bytes\nfunc IndexByte(b []byte, c byte) int\n",
+		"errors": "package errors\nfunc New(text string) error\n", "path": "package path\nfunc Join(elem ...string) string\n"},
+	Lib: map[string]go2coq.LibFunc{"bytes.IndexByte": {Coq: "go_bytes_IndexByte"}, "errors.New": {IsError: true},
+		"path.Join": {Coq: "t_path_Join"}},
+	Prefixes: []go2coq.Prefix{{Func: "Store", Before: "os.Setenv"}},
 	Structs: map[string]go2coq.Struct{"verif/harness/go2coq/internal/synth.P": {CoqType: "(bytes * Z)%type", Ctor: "pair",
 		Fields: []go2coq.Field{{Go: "Name", Getter: "fst"}, {Go: "N", Getter: "snd"}}}},
 }
@@ -123,6 +126,15 @@ func TestAgainstGo(t *testing.T) {
 		add("s_SumTri 10 "+coqZ(n), res(func() string { return coqZ(synth.SumTri(n)) }))
 		add("s_CountDown "+coqZ(n), res(func() string { return coqZ(synth.CountDown(n)) }))
 	}
+	// the pure prefix of an effectful function: what it returns, or the variable it hands on
+	for _, name := range []string{"a", "x/y", "/abs", "..", "b.txt"} {
+		os.Unsetenv("GO2COQ_SYNTH_STORE")
+		want := "Ok (Return true)"
+		if err := synth.Store("d", name); err == nil {
+			want = "Ok (Normal " + coqBytes([]byte(os.Getenv("GO2COQ_SYNTH_STORE"))) + ")"
+		}
+		add("s_Store_before_os_Setenv "+coqBytes([]byte("d"))+" "+coqBytes([]byte(name)), want)
+	}
 	// the bound on the depth of a recursion is real
 	add("s_Tri 5 "+coqZ(5), "OutOfFuel")
 	add("s_Tri 6 "+coqZ(5), "Ok "+coqZ(15))
@@ -145,6 +157,8 @@ func TestAgainstGo(t *testing.T) {
 	var b strings.Builder
 	b.WriteString("From Coq Require Import List ZArith NArith Bool.\nFrom Coq.Strings Require Import Byte.\nImport ListNotations.\n")
 	b.WriteString("From GI Require Import Lib.Bytes Lib.GoSem Lib.GoSemExt.\nImport GoNotations.\nLocal Open Scope go_scope.\n\n")
+	// path.Join(a, b) on two non-empty clean relative elements
+	b.WriteString("Definition t_path_Join (l : list bytes) : bytes := match l with [a; b] => a ++ x2f :: b | _ => [] end.\n\n")
 	b.WriteString(r.Text)
 	for i, e := range ex {
 		fmt.Fprintf(&b, "Example ex%d : %s.\nProof. vm_compute. reflexivity. Qed.\n", i, e)
@@ -203,6 +217,7 @@ func TestRejects(t *testing.T) {
 		{"defer", "func F(d []byte) int { defer func() {}(); return 0 }", "", nil},
 		{"global-assign", "var g = []byte(\"x\")\nfunc F(d []byte) int { g = d; return 0 }", "package-level", nil},
 		{"deadcode", "func F(d []byte) int { return 0; return 1 }", "unreachable", nil},
+		{"variadic-spread", "func F(l []string) string { return path.Join(l...) }", "... argument", nil},
 	}
 	for _, c := range cases {
 		saved := cfg.Funcs
@@ -211,7 +226,7 @@ func TestRejects(t *testing.T) {
 			cfg.Funcs = c.funcs
 		}
 		cfg.Stubs["regexp"] = "package regexp\ntype Regexp struct{}\nfunc MustCompile(s string) *Regexp\nfunc (re *Regexp) Match(b []byte) bool\n"
-		_, err := translate(t, "package synth\nimport (\"bytes\"; \"regexp\")\nvar _ = bytes.IndexByte\nvar re = regexp.MustCompile(\"a\")\ntype P struct { Name string; N int }\n"+c.body+"\n")
+		_, err := translate(t, "package synth\nimport (\"bytes\"; \"regexp\"; \"path\"; \"os\"; \"errors\")\nvar _ = bytes.IndexByte\nvar _ = path.Join\nvar _ = errors.New\nfunc Store(d string) error { return os.Setenv(\"K\", d) }\nvar re = regexp.MustCompile(\"a\")\ntype P struct { Name string; N int }\n"+c.body+"\n")
 		cfg.Funcs = saved
 		delete(cfg.Stubs, "regexp")
 		if err == nil {
